@@ -246,7 +246,7 @@ Proof.
     unfold client_handle_certificate_verify in H.
     apply with_parse_inv in H. destruct H as [(v & _ & H) | [-> _]]; [| exact I].
     destruct (check_cv O c s v SERVER_CONTEXT_STRING); [inversion H; subst; exact I |].
-    destruct (negb ((if f_verify c then o_cert_ok O (f_server_name c) (t_peer s) else 0) =? 0));
+    destruct (negb ((if f_verify c then o_cert_ok O (verify_name c) (t_peer s) else 0) =? 0));
       [inversion H; subst; exact I |].
     inversion H; subst o s' out; clear H.
     eapply (cinv2_extend c s _ m CLIENT_EXPECT_FINISHED I); fields; rewrite ?Es; try reflexivity; try discriminate.
